@@ -141,6 +141,37 @@ var gridWraps = []struct {
 	{"loop-cond", "j = 0\n while (match (j) { 0 => { j++\n @ } }) { j++ }", ""},
 	{"for-post", "for (i = 0; i < 2; match (1) { 1 => { i++\n @ } }) { i += 0 }", ""},
 	{"match-expr-arm", "y = match (1) { 1 => match (2) { 2 => { @ } } }", ""},
+	// the signal fires while a sub-expression of every kind is being evaluated
+	{"in-object-literal", "o = { k: 1, m: match (1) { 1 => { @ } } }", ""},
+	{"in-array-literal", "a = [1, match (1) { 1 => { @ } }, 3]", ""},
+	{"in-binary-operand", "x = 1 + match (1) { 1 => { @ } }", ""},
+	{"in-left-operand", "x = match (1) { 1 => { @ } } + 1", ""},
+	{"in-unary-operand", "x = !match (1) { 1 => { @ } }", ""},
+	{"in-logical-operand", "x = true && match (1) { 1 => { @ } }", ""},
+	{"in-call-argument", "x = num(match (1) { 1 => { @ } })", ""},
+	{"in-user-call-argument", "x = g2(1, match (1) { 1 => { @ } })", "function g2(a, b) { return a }\n"},
+	{"in-method-argument", "x = [3, 1].contains(match (1) { 1 => { @ } })", ""},
+	{"in-method-receiver", "x = match (1) { 1 => { @ } }.length()", ""},
+	{"in-index", "x = [1, 2][match (1) { 1 => { @ } }]", ""},
+	{"in-member-base", "x = match (1) { 1 => { @ } }.k", ""},
+	{"in-assignment-target-index", "x[match (1) { 1 => { @ } }] = 1", ""},
+	{"in-assignment-value", "x.k = match (1) { 1 => { @ } }", ""},
+	{"in-compound-assignment", "x += match (1) { 1 => { @ } }", ""},
+	{"in-if-condition", "if (match (1) { 1 => { @ } }) { x = 1 }", ""},
+	{"in-forin-iterable", "for (q in [match (1) { 1 => { @ } }]) { x = q }", ""},
+	{"in-for-init", "for (q = match (1) { 1 => { @ } }; q < 1; q++) { }", ""},
+	{"in-printf-argument", "printf(\"%v\\n\", match (1) { 1 => { @ } })", ""},
+	{"in-is-operand", "x = match (1) { 1 => { @ } } is number", ""},
+	{"in-regex-operand", "x = \"a\" ~ match (1) { 1 => { @ } }", ""},
+	{"in-match-subject", "x = match (match (1) { 1 => { @ } }) { z => z }", ""},
+	{"in-match-pattern-body-expr", "x = match (1) { 1 => [match (2) { 2 => { @ } }] }", ""},
+	{"in-json-argument", "x = json({ k: match (1) { 1 => { @ } } })", ""},
+	{"in-incdec-target", "x[match (1) { 1 => { @ } }]++", ""},
+	{"via-function-in-object-literal", "o = { k: sg() }", "function sg() { @ }\n"},
+	{"via-function-in-array-literal", "a = [sg(), 2]", "function sg() { @ }\n"},
+	{"via-function-in-operand", "x = 1 + sg()", "function sg() { @ }\n"},
+	{"via-function-in-index", "x = [1][sg()]", "function sg() { @ }\n"},
+	{"via-function-in-call-argument", "x = num(sg())", "function sg() { @ }\n"},
 }
 
 var gridSites = []struct {
@@ -196,6 +227,28 @@ func gridCase(i int) *ProgCase {
 	return c
 }
 
+// ---------------------------------------------------------------- printf grid
+
+var printfDirectives = []string{"s", "f", "v", "%", "d", "q", ""}
+var printfWidths = []string{"", "1", "3", "8", "-1", "-3", "-8", "03", "-03", "0", "-0", "65536", "65537", "-65536", "-65537", "99999999999999999999", "-", "3.2", " 3"}
+var printfArgs = []string{`"ab"`, `"abcdefghij"`, `"éé"`, `"日本語テキスト"`, `"😀"`, `""`, `"a\tb"`, "7", "2.5", "-3", "123456789012345678901", "0.000001", "true", "null", "[1, \"é\"]", "{k: \"日本\"}", "", "unsetvar", "$", "$.name", `"\xff\xfe"`}
+
+func printfGridCount() int { return len(printfDirectives) * len(printfWidths) * len(printfArgs) }
+
+func printfGridCase(i int) *ProgCase {
+	d := printfDirectives[i%len(printfDirectives)]
+	i /= len(printfDirectives)
+	w := printfWidths[i%len(printfWidths)]
+	i /= len(printfWidths)
+	a := printfArgs[i%len(printfArgs)]
+	arg := ""
+	if a != "" {
+		arg = ", " + a
+	}
+	prog := "{ printf(\"[%" + w + d + "]\\n\"" + arg + ")\n printf(\"%" + w + d + "|%" + w + d + "\\n\"" + arg + arg + ") }"
+	return &ProgCase{Note: "printf %" + w + d + " with " + a, Prog: prog, Budget: 1000, Inputs: []ProgInput{{Name: "in.json", Data: QBytes(`{"name": "Zoë Ünïcödé", "n": 1}`)}}}
+}
+
 // ---------------------------------------------------------------- program text generator
 
 type progGen struct {
@@ -208,7 +261,7 @@ type progGen struct {
 
 var pgIdents = []string{"a", "b", "x", "y", "n", "s", "arr", "obj", "k", "v", "i", "acc"}
 var pgMembers = []string{"a", "b", "id", "k", "length", "push", "items", "t"}
-var pgStrings = []string{`"x"`, `'y'`, `""`, `"a b"`, `"12"`, `"%s %f\n"`, `"tab\t"`, `"bad\q"`, `"é"`, `'%5s|'`, `"%-3f"`, `"%"`, `"%v"`, `"1e3"`, `","`}
+var pgStrings = []string{`"x"`, `'y'`, `""`, `"a b"`, `"12"`, `"%s %f\n"`, `"tab\t"`, `"bad\q"`, `"é"`, `'%5s|'`, `"%-3f"`, `"%"`, `"%v"`, `"1e3"`, `","`, `"%-3s"`, `"%-8s|%3s"`, `"%08s"`, `"éé"`, `"日本語"`, `"%-2s%-2s"`, `"%5v"`}
 var pgRegex = []string{"/a/", "/^[0-9]+$/", "/(/", "/x|y/", "/\\d+/"}
 var pgBinops = []string{"+", "-", "*", "/", "%", "==", "!=", "<", "<=", ">", ">=", "&&", "||", "~", "!~"}
 var pgTypes = []string{"number", "string", "array", "object", "bool", "null", "function", "regex", "unknown", "foo"}
@@ -876,6 +929,7 @@ func registerC01() {
 	}
 	p.Workloads = []*Workload{
 		progWorkload("signal-grid", map[string]int{"quick": gridCount(), "thorough": gridCount()}, func(i int, t *Tape, tier string) *ProgCase { return gridCase(t.Forced(i, gridCount())) }, false),
+		progWorkload("printf-grid", map[string]int{"quick": printfGridCount(), "thorough": printfGridCount()}, func(i int, t *Tape, tier string) *ProgCase { return printfGridCase(t.Forced(i, printfGridCount())) }, false),
 		progWorkload("progtext", map[string]int{"quick": 150000, "thorough": 8000000}, func(i int, t *Tape, tier string) *ProgCase { return genProgCase(t, tier) }, false),
 		progWorkload("expr-api", map[string]int{"quick": 40000, "thorough": 2000000}, func(i int, t *Tape, tier string) *ProgCase { return genExprCase(t) }, false),
 		streamWorkload("faulted-streams", map[string]int{"quick": 30000, "thorough": 1000000}, streamGenOpts{mode: "c01", maxFiles: 3, maxVals: 4, selectors: true, faults: allFaults, faultProb: 90, sigProb: 25}),
